@@ -13,25 +13,25 @@ ROOT = Path(__file__).resolve().parent.parent
 LEVEL = {
     "C01": ("post-condition monitor on locate_droplets/get_phasefield with generator-supplied ground truth and an independent covered-cell oracle (own periodic metric, closed-form cell volumes)",
             "Held on every generated execution (thousands per quick run, ~1e5 thorough) over all four grid families, all periodicity masks, anisotropic spacings, offsets, boundary- and corner-straddling droplets; says nothing about grids larger than the bounds in DESIGN 5/C01."),
-    "C02": ("input-agnostic post-condition monitor on locate_droplets_in_mask against a flood fill on the universal cover of the periodic grid; exhaustive enumeration of small images",
+    "C02": ("input-agnostic post-condition monitor on locate_droplets_in_mask against a flood fill on the universal cover of the periodic grid; exhaustive enumeration of small images; thorough tier also runs the repository's own tests under the monitor",
             "Every binary image on the listed small grids (all periodicity masks) is enumerated completely, larger ones randomly/structurally; winding components are checked for volume only."),
     "C03": ("post-condition monitor on get_phase_field/get_phasefield against an independent inside/outside oracle (own metric, own harmonic series) plus roll/permutation metamorphic relations",
             "All five classes x grid families x width kinds on generated droplets; knife-edge cells are skipped."),
-    "C04": ("scipy.optimize proxy observing least_squares start/end cost + post-condition monitor on refine_droplet with independent recomputation of the deviation over the specified fit region",
-            "Cost, bounds, constrained coordinates, wrapping, image digest checked on every generated fit; self-render clause only when the start residual is numerically zero."),
+    "C04": ("least_squares observer (dispatcher bound onto scipy.optimize before the package is imported) recording start/end cost + post-condition monitor on refine_droplet with independent recomputation of the deviation over the specified fit region",
+            "Cost (up to one constant factor of units), bounds, constrained coordinates, wrapping, image digest checked on every generated fit, incl. candidates of any provenance, preceding calls with other options, worker processes; self-render clause only when the start residual is numerically zero."),
     "C05": ("post-condition monitor on locate_droplets(refine=True) with generator-supplied ground truth under the statement's preconditions",
             "Recovery error < 1e-4 on every generated field; 'automatic levels without fitting' is not claimed by the statement."),
-    "C06": ("offline checker over recorded tracking histories with unique droplet identities (conservation, exactly-once, ordering, gap-freeness); exhaustive lattice histories",
-            "Partition clause on all histories; stronger clauses only when frames are overlap-free."),
+    "C06": ("offline checker over recorded tracking histories with unique droplet identities (conservation, exactly-once, ordering, gap-freeness); exhaustive lattice histories, exact-tie lattice family, repository tests under the monitor (thorough)",
+            "Partition clause on all histories (members of any class, twins identified by multiplicity); stronger clauses only when frames are overlap-free; near-ties excluded, exact ties on dyadic lattices decided."),
     "C07": ("reference matcher written from the statement compared as link sets over the recorded histories (own periodic metric)",
             "Knife-edge distances/overlaps excluded by the generators; closest-pair clause only for pairwise distinct distances."),
-    "C08": ("paired to_file/from_file monitor comparing a structural snapshot (classes, parameter bytes, times) taken before writing",
+    "C08": ("paired to_file/from_file monitor comparing a structural snapshot (classes, parameter bytes, times) taken before writing (fresh and overwritten paths); repository tests under the monitor (thorough)",
             "HDF5/h5py trusted; hostile mixed collections may raise but must not read back different."),
     "C09": ("exception-recording wrappers on all public entry points + finiteness post-condition under a fuzz workload; documented errors are a closed list",
             "Held on the generated valid inputs; every escaping exception is attributed to its call."),
-    "C10": ("snapshot/ensure contracts on remove_overlapping and post-conditions on the distance queries against the oracle's own metric; exhaustive lattice emulsions",
-            "Exhaustive on small lattices with tied radii, random otherwise."),
-    "C11": ("post-condition monitor on merge and _merge_data (python, in-place, jitted under NUMBA_BOUNDSCHECK) against volume/centre-of-mass conservation",
+    "C10": ("snapshot/ensure contracts on remove_overlapping and post-conditions on the distance queries against the oracle's own metric; exhaustive lattice emulsions, exact-tie family, repeated queries (history independence, caller-owned results)",
+            "Exhaustive on small lattices with tied radii, random otherwise; near-ties excluded, exact ties on dyadic lattices decided by the strict wording."),
+    "C11": ("post-condition monitor on merge and _merge_data (python, in-place, jitted under NUMBA_BOUNDSCHECK) against volume/centre-of-mass conservation; operands of any provenance (pickled, copied, linked, returned by the image analysis), aliased outputs",
             "Numeric over >= 6 decades; the symbolic quantifier is out of reach of executions."),
     "C12": ("differential monitor over all conversion variants (scalar, array, compiled, nd-compiled, py-pde) + round trips + derivative relation",
             "30 orders of magnitude sampled; symbolic quantifier out of reach."),
@@ -39,7 +39,7 @@ LEVEL = {
             "First-order agreement tested at amplitude scale 1e-4 with an explicit second-order allowance."),
     "C14": ("history monitor on tracker.handle/locate_droplets/append vs offline from_storage over the same fields; real solver runs",
             "Direct and solver-driven histories, bounded length."),
-    "C15": ("delay-injecting event-logging wrapper in worker processes forcing completion orders; bitwise comparison with the serial result",
+    "C15": ("delay-injecting event-logging wrapper in worker processes forcing completion orders; bitwise comparison with the serial result; repeat/history-independence/caller-owned-results monitors on every deterministic entry point",
             "Observed completion permutations are reported; fewer than 3 distinct non-identity permutations => inconclusive."),
     "C16": ("post-condition monitor on get_structure_factor against a dense DFT reference, Parseval and metamorphic invariances",
             "d=1..3, even/odd shapes, anisotropic spacing."),
@@ -49,7 +49,7 @@ LEVEL = {
             "Dyadic data so affine maps are exact."),
     "C19": ("complete enumeration of request configurations with a class/shape post-condition on locate_droplets",
             "Finite configuration space enumerated completely (field content sampled)."),
-    "C20": ("lock-step list reference model + icontract invariants on Emulsion/EmulsionTimeCourse/DropletTrack over exhaustive short and random long operation sequences",
+    "C20": ("lock-step list reference model + icontract invariants on Emulsion/EmulsionTimeCourse/DropletTrack over exhaustive short and random long operation sequences; repository tests under the invariants (thorough)",
             "Aliasing probed by mutation; merge of members only for spherical/diffuse droplets."),
 }
 
